@@ -574,24 +574,21 @@ func (ev *c08Eval) eval(n *c08Node) c08Val {
 				ev.dev("neg:double-cancel") // (--x also keeps a negative zero that 0-(0-x) would normalise)
 			}
 		}
-		switch {
-		case a.K == "text" && !c08IsNumericText(a):
-			ev.dev("neg:text-as-zero")
-		case a.K == "err" && a.S == "#NUM!":
-			ev.dev("numerr-swallowed")
+		if c08EmptyText(a) { // unary minus coerces through ToNumber since the second fix window
+			ev.dev("emptytext-as-zero")
 		}
 		x, e := c08ToNum(a)
 		if e != "" {
 			return c08Err(e)
 		}
+		if r := 0 - x; math.IsNaN(r) || math.IsInf(r, 0) {
+			ev.dev("numerr-swallowed")
+		}
 		return c08Num(0 - x)
 	case "pct":
 		a := ev.eval(n.A)
-		switch {
-		case a.K == "text":
-			ev.dev("pct:text-as-zero")
-		case a.K == "err" && a.S == "#NUM!":
-			ev.dev("numerr-swallowed")
+		if c08EmptyText(a) { // postfix % coerces through ToNumber since the second fix window
+			ev.dev("emptytext-as-zero")
 		}
 		x, e := c08ToNum(a)
 		if e != "" {
@@ -639,9 +636,6 @@ func (ev *c08Eval) classify(op string, a, b c08Val) {
 		if c08EmptyText(a) || c08EmptyText(b) {
 			ev.dev("emptytext-as-zero")
 		}
-		if op == "sub" && (a.K == "err" && a.S == "#NUM!" || b.K == "err" && b.S == "#NUM!") {
-			ev.dev("numerr-swallowed")
-		}
 		x, e1 := c08ToNum(a)
 		y, e2 := c08ToNum(b)
 		if e1 == "" && e2 == "" {
@@ -660,15 +654,13 @@ func (ev *c08Eval) classify(op string, a, b c08Val) {
 				r = x / y
 			case "pow":
 				if x == 0 && y <= 0 {
-					ev.dev("pow:zero-base")
+					return // #NUM! / #DIV/0! on both sides since the second fix window
 				}
 				r = math.Pow(x, y)
 			}
-			if math.IsInf(r, 0) {
-				ev.dev("overflow-inf")
-			}
-			if math.IsNaN(r) {
-				// excelize keeps a NaN as an error *value* on the operand stack: evaluation goes on
+			if math.IsNaN(r) || math.IsInf(r, 0) {
+				// excelize keeps a NaN / overflowing result as a #NUM! *value* on the operand stack:
+				// evaluation goes on and the error of a later subexpression is reported instead
 				ev.dev("numerr-swallowed")
 			}
 		}
@@ -1300,6 +1292,7 @@ func c08Witnesses() []*c08Node {
 		c08B("mul", N("1E+200"), N("1E+200")),                   // overflow
 		c08U("neg", c08U("par", c08B("pow", c08U("par", c08U("neg", N("8"))), c08U("par", c08B("div", N("1"), N("3")))))), // -((-8)^(1/3))
 		c08B("add", N("1"), X("a")),                             // error code lost
+		c08B("div", c08U("par", c08B("pow", c08U("par", c08U("neg", N("8"))), N("0.5"))), c08U("par", c08B("div", N("1"), N("0")))), // ((-8)^0.5)/(1/0): #NUM! first
 		c08Ref("Sheet1!A5", "A5"),                               // =A5 (blank)
 		c08B("eq", c08Ref("Sheet1!A5", "A5"), L("FALSE")),       // blank=FALSE
 	}
